@@ -20,6 +20,7 @@ import (
 	"go.mongodb.org/mongo-driver/bson/primitive"
 	"google.golang.org/grpc/status"
 
+	"verifharness/memmongo"
 	"verifharness/srvkit"
 )
 
@@ -381,7 +382,22 @@ func (w *sworld) stepSync(c int, rs []int, fault string, hold int, mut *mutation
 			defer cancel()
 			return w.kit.Service.ProcessPushPull(ctx, cloneMsg(msg))
 		}
+		if fault == "nosnap" {
+			w.kit.Mongo.SetGate(func(c memmongo.CmdRecord) bool { return c.Coll == "-_-Snapshots" && c.Name == "find" })
+		}
 		resp, err := send()
+		if fault == "nosnap" {
+			for t := 0; t < 300 && len(w.kit.Mongo.Held()) == 0; t++ {
+				time.Sleep(time.Millisecond)
+			}
+			if h := w.kit.Mongo.Held(); len(h) > 0 {
+				w.kit.Mongo.FailFrom(h[0].Seq)
+			}
+			w.kit.Mongo.SetGate(nil)
+			w.kit.Mongo.ReleaseAll()
+			w.waitBackground()
+			w.kit.Mongo.FailFrom(0)
+		}
 		time.Sleep(2 * time.Millisecond)
 		w.waitBackground()
 		if fault == "dup" || fault == "dup1" {
@@ -471,25 +487,39 @@ func (w *sworld) stepApplyLate(hold int) (J, J, bool) {
 	return J{"k": "applylate", "hold": hold}, obs, hung
 }
 
-func (w *sworld) stepPatch(col, key, js string) (J, J, bool) {
+func (w *sworld) stepPatch(col, key string, target interface{}) (J, J, bool) {
 	obs := J{}
+	before := w.storeJ()
 	hung := guarded(obs, func() {
+		js, _ := json.Marshal(target)
 		ctx, cancel := context.WithCancel(context.Background())
-		res, err := w.kit.Service.PatchDocument(ctx, &model.PatchMessage{Collection: col, Key: key, Json: js})
+		res, err := w.kit.Service.PatchDocument(ctx, &model.PatchMessage{Collection: col, Key: key, Json: string(js)})
 		cancel()
 		obs["rpc"] = rpcCode(err)
 		if res != nil {
 			var v interface{}
 			_ = json.Unmarshal([]byte(res.Json), &v)
 			obs["json"] = v
+		} else {
+			obs["json"] = nil
 		}
 		time.Sleep(2 * time.Millisecond)
 		w.waitBackground()
 		obs["notifs"] = w.notifs()
 	})
-	var tgt interface{}
-	_ = json.Unmarshal([]byte(js), &tgt)
-	return J{"k": "patch", "col": col, "key": key, "json": tgt}, obs, hung
+	// the temporary replica's random ids, read back from what it stored (the model is told them)
+	cmd := J{"k": "patch", "col": col, "key": key, "json": target, "duid": "", "cuid": ""}
+	after := w.storeJ()
+	nb := len(before["operations"].([]interface{}))
+	ops := after["operations"].([]interface{})
+	if len(ops) > nb {
+		last := ops[len(ops)-1].(J)
+		cmd["duid"] = last["duid"]
+		if id, ok := last["op"].(J)["id"].([]interface{}); ok && len(id) == 4 {
+			cmd["cuid"] = id[2]
+		}
+	}
+	return cmd, obs, hung
 }
 
 // --- canonical dump of the store ------------------------------------------------------------
